@@ -34,6 +34,7 @@ func main() {
 		Samples  []any             `json:"samples"`
 		Findings []balenum.Finding `json:"findings"`
 		Extra    map[string]int64  `json:"extra"`
+		Wall     float64           `json:"wall_s"`
 	}
 	if err := json.Unmarshal(b, &s); err != nil {
 		ev.InfraError("harness summary unreadable: %v", err)
@@ -52,6 +53,7 @@ func main() {
 		r.DistinctHash(h)
 	}
 	r.Set("bound_completed", s.Bound)
+	r.Set("harness_wall_s", s.Wall)
 	r.Set("plans_per_balancer", s.PerBal)
 	r.Set("plans_per_sweep", s.PerSweep)
 	for k, v := range s.Extra {
